@@ -26,7 +26,7 @@ class Job:
                  loop_contracts=False, unwindset=(), expected_wrap=(), timeout=300, defines=(), backend='sat',
                  min_obligations=1, reach=('return',), enforce=True, pre_includes=('stubs/gmp_types.h',),
                  checks=None, proves='', entry_hook=None, replay=None, opaque=(), extra_roots=(), no_reach_return=False,
-                 object_bits=None, bounded_note=None, nondet_static=False):
+                 object_bits=None, bounded_note=None, nondet_static=False, aux_tu=None, throwing_stubs=()):
         self.__dict__.update(locals()); del self.__dict__['self']
 
 class Obligation:
@@ -95,7 +95,7 @@ class Session:
             out = os.path.join(self.scratch, 'ast_' + re.sub(r'\W', '_', relpath + '_' + filt) + '.json')
             gen = self._generated()
             t0 = time.time()
-            cmd = osmt2c.dump_ast(os.path.join(self.repo, relpath), out, filt=filt,
+            cmd = osmt2c.dump_ast(relpath if os.path.isabs(relpath) else os.path.join(self.repo, relpath), out, filt=filt,
                                   extra=['-include', os.path.join(VERIF, 'include/verif_limits.h'), '-I' + gen], srcroot=self.repo)
             t = osmt2c.TU(out)
             t.dump_cmd = ' '.join(cmd); t.dump_s = time.time() - t0
@@ -137,8 +137,24 @@ def run_job(sess, job):
             if len(f) != 1:
                 raise osmt2c.Unsupported('root %s: %d candidates %s' % (r, len(f), [lw.fn_cname[x['id']] for x in f]))
             roots += f
-        lw.lower(roots)
+        lw.lower(roots, throwing_stubs=getattr(job, 'throwing_stubs', ()))
         text = lw.output()
+        aux = getattr(job, 'aux_tu', None)
+        if aux:
+            # functions that have no body in the primary TU but are defined in the auxiliary one (same deterministic C names)
+            tu2 = sess.tu(aux)
+            lw2 = osmt2c.Lowerer(tu2, stubs=job.stubs, opaque_records=job.opaque, srcroot=sess.repo)
+            have = set(lw.fn_cname[i] for i in lw.order)
+            missing = []
+            for nm in sorted(lw.extern_calls):
+                f2 = [n for i, n in tu2.funcs.items() if lw2.fn_cname.get(i) == nm and not lw2._is_stub(n)]
+                if len(f2) == 1: missing.append(f2[0])
+            if missing:
+                lw2.lower(missing, throwing_stubs=getattr(job, 'throwing_stubs', ()))
+                lw2.output(skip_funcs=have, skip_records=list(lw.records_emitted), skip_globals=set(lw.globals_emitted), aux=True)
+                text = osmt2c.assemble([lw.pieces, lw2.pieces])
+                lw.meta['functions'] += [f for f in lw2.meta['functions'] if f['cname'] not in have]
+                lw.meta['aux_tu'] = aux
         rootc = lw.fn_cname[roots[0]['id']]
         res['meta'] = lw.meta; res['root_cname'] = rootc
         open(os.path.join(d, 'lowered.c'), 'w').write(text)
@@ -237,7 +253,7 @@ def classify(job, obs, res):
             if o.status != 'SUCCESS':
                 raise Undecided('the lowered code calls %s, for which no stub with a contract exists' % o.function)
             o.cls = 'excluded'; continue
-        if 'unwinding assertion' in o.desc and o.status != 'SUCCESS':
+        if 'unwinding assertion' in o.desc and o.status == 'FAILURE':
             raise Undecided('unwinding bound too small for %s (%s) -- a bounded job must unwind completely' % (o.function, o.pid))
         if o.status == 'SUCCESS': o.cls = 'discharged'
         elif o.status == 'FAILURE': o.cls = 'violated'; failed.append(o)
